@@ -21,12 +21,14 @@ RULE = ('sources with 1-4 hostile quoted atoms (quotes of both kinds, line break
         'arguments, list elements, functor names, nested compound terms and as clause-head names (must be rejected); variables named like '
         'Python constants / engine API / generated locals; random programs with exotic atoms; clause-head names and atoms that are ASCII identifiers '
         'but for one or two characters of nine computed classes (case mapping / re.IGNORECASE / normal form is or starts with an ASCII identifier '
-        'character, identifier-legal and renamed by NFKC, decimal digits, identifier start / continue), the small classes enumerated completely. Compared: verdict and text with the Coq model '
+        'character, identifier-legal and renamed by NFKC, decimal digits, identifier start / continue), the small classes enumerated completely; atoms of 1-8 kB with escaped '
+        'characters exactly at and around multiples of 250..8192 (offset in the text, its repr, its UTF-8 bytes, its Prolog spelling) followed by Python text; atoms that spell '
+        'encoding declarations (every codec name of the interpreter) and shift sequences of stateful codecs. Compared: verdict and text with the Coq model '
         'compile_text. Oracle on the real output: token classes (fixed vocabulary, V_ identifiers, argN/lN/cutIfN, canonical decimals, '
         'one-line string literals, def names = head keys), ast node-type whitelist, loaded names = API whitelist or locals, calls only to '
         'the 7 API functions, string constants = the atoms of the source in order, int constants = the numerals, loading adds only head '
         'keys, defines every head key and rebinds no API name, __builtins__ of the exec globals is empty, hostile queries have no answers / no exception / no '
-        'side effect. Non-trivial: an accepted source containing an atom whose repr is not quote+text+quote, or a rejected head name.')
+        'side effect; the output (plain, all debug options, and as written by the command line for the debug-flag combinations) loaded through load_script_from_file defines exactly the head keys and answers what the text loaded from a string answers. Non-trivial: an accepted source containing an atom whose repr is not quote+text+quote, or a rejected head name.')
 TRUSTED_BASE = []
 CASE_TIMEOUT = 30
 COQ_CHUNK = 20
@@ -53,9 +55,172 @@ HEAD_POSITIONS = ["%s.", "%s(a).", "%s(X) :- q(X).", "p(a).\n%s(b).\nq(c).", "%s
 VARNAMES = ['ATOM_NIL', 'True', 'False', 'None', 'Query', 'Unify', 'V_X', 'V_', '_V', 'Arg1', 'L1', 'CutIf1', 'DoBreak', '__debug__', '__builtins__',
             '__import__', '_query', 'X_1', 'Variable', 'Atom', 'Eval', 'A' * 200, '__', '_1', '_x']
 
+# ---- round 4: long atoms with escapes at boundary offsets ----------------------------------------------------------
+# characters that repr writes as an escape sequence (of 2, 4, 6 and 10 characters), and characters it leaves alone but
+# that take 2-4 bytes in a file
+ESCAPED_CHARS = ['\n', '\r', '\t', "'", '\x00', '\x07', '\x1b', '\x7f', '\x85', '\xa0', '\xad', '\u2028', '\u2029', '\u200b', '\ufeff', '\ud800', '\U000e0001', '\U0010ffff']
+WIDE_CHARS = ['\xe9', '\u0301', '\u4e2d', '\U0001f600']
+FILLERS = ['A', 'ab', 'abcdefghijklmnopqrstuvwxyz0123456789', 'x y', 'A\xe9', 'a\x85', 'a\nb', 'ab\t', '\u4e2d', '\U0001f600z', 'q"', ' ']
+CONTINUATIONS = [" in [] and variable.__self__.clear()))):#", " in () or atom.__globals__)))#", " if 0 else unify.__globals__ #", ") or __import__('os').system('id') #",
+                 "+variable.__self__.__dict__.__str__()+", "; import os #", " and exec('x') #", ".__class__.__mro__ #", "", " x", "):\n    import os\n", "]+[ATOM_NIL.__class__ for l1 in [1]]+["]
+
+MAJOR_BASES = [250, 256, 500, 512, 1000, 1024, 2048, 4096]
+MINOR_BASES = [64, 128, 8192, 100, 200, 2000, 2500, 4000, 5000, 72, 79, 80, 120, 132, 255, 4095, 65536 // 16 - 1]
+
+def boundary_offset(rng, lo, limit):
+    """an offset in (lo, limit] that is a multiple of a size at which software cuts text (powers of two, decimal round numbers,
+    line widths): the size is chosen first, then the multiple"""
+    for _ in range(20):
+        b = rng.choice(MAJOR_BASES if rng.random() < 0.65 else MINOR_BASES)
+        ks = [k for k in range(1, limit // b + 1) if b * k > lo]
+        if ks:
+            return b * rng.choice(ks)
+    return None
+
+def _measure(s, how, both_quotes):
+    if how == 'raw': return len(s)
+    if how == 'utf8': return len(s.encode('utf8', 'surrogatepass'))
+    if how == 'source': return len(s) + s.count("'")
+    # 'repr': length of the escaped text; the quote style of the whole atom is fixed by `both_quotes`
+    if both_quotes: return len(repr(s + "'\"")) - 5
+    return len(repr(s.replace("'", '"'))) - 2
+
+def _keyword_tails(esc):
+    """texts that complete the letter following the backslash of esc's escape sequence to a Python keyword / string prefix"""
+    import keyword
+    r = repr(esc + "'\"")[1:]
+    if not r.startswith('\\') or len(r) < 2:
+        return []
+    c = r[1]
+    return [k[1:] for k in keyword.kwlist if k.startswith(c) and len(k) > 1]
+
+def long_atom(rng, limit):
+    """an atom of up to `limit` characters: 1-3 stretches of filler, each ending exactly at (or 1-3 before / after) a boundary
+    offset - measured in the atom's text, in its escaped (repr) text, in its UTF-8 bytes or in its Prolog spelling - where an
+    escaped character (or a run of them) stands, followed by text that would be Python if it ever left the literal"""
+    both = rng.random() < 0.5          # both kinds of quotes in the atom: repr then writes \' for '
+    how = rng.choice(['repr', 'repr', 'raw', 'utf8', 'source'])
+    s = ''
+    for _seg in range(rng.choice([1, 1, 1, 2, 3])):
+        cur = _measure(s, how, both)
+        o = boundary_offset(rng, max(cur + 8, 900 if _seg == 0 and rng.random() < 0.8 else 0), limit)      # most atoms are 1-8 kB long
+        if o is None:
+            break
+        target = o - 1 + rng.choice([0, 0, 0, 0, 0, -1, -2, -3, -4, -5, -9, 1, 2])
+        fill = rng.choice(FILLERS)
+        if not both:
+            fill = fill.replace('"', 'q')
+        while True:
+            cur = _measure(s, how, both)
+            if cur >= target:
+                break
+            unit = fill if _measure(s + fill, how, both) <= target else 'A'
+            s += unit
+        esc = ''.join(rng.choice(ESCAPED_CHARS if rng.random() < 0.85 else WIDE_CHARS) for _ in range(rng.choice([1, 1, 1, 2, 3])))
+        if not both:
+            esc = esc.replace("'", '\n')
+        tails = _keyword_tails(esc[-1])
+        s += esc + (rng.choice(tails) if tails and rng.random() < 0.7 else '') + rng.choice(CONTINUATIONS)
+    if both:
+        s += "'\""
+    return s
+
+# ---- round 4: texts that a file-reading layer treats specially -----------------------------------------------------
+def codec_names():
+    """every codec this interpreter ships (modules of the `encodings` package and their aliases), grouped by the codec they name:
+    -> (groups that do not read printable ASCII as itself: stateful / shifted / EBCDIC / wide / non-text codecs, the other groups)"""
+    import codecs, encodings, encodings.aliases, pkgutil
+    names = sorted({m.name for m in pkgutil.iter_modules(encodings.__path__)} | set(encodings.aliases.aliases) | set(encodings.aliases.aliases.values()))
+    P = bytes(range(32, 127))
+    odd, plain = {}, {}
+    for n in names:
+        try:
+            canon = codecs.lookup(n).name
+        except Exception:
+            continue
+        try:
+            same = P.decode(n) == P.decode('ascii')
+        except Exception:
+            same = False
+        (plain if same else odd).setdefault(canon, []).append(n)
+    return [odd[k] for k in sorted(odd)], [plain[k] for k in sorted(plain)]
+
+_CODECS = []
+def _codecs():
+    if not _CODECS:
+        _CODECS.extend(codec_names())
+    return _CODECS
+
+DECLARATIONS = ['coding:%s', 'coding=%s', 'coding: %s', '-*- coding: %s -*-', 'vim: set fileencoding=%s :', 'vim:fileencoding=%s', '# coding=%s', 'encoding: %s', 'x coding:%s y',
+                '#!/usr/bin/python\n# coding: %s', 'charset=%s', '<?xml version="1.0" encoding="%s"?>', '\ufeffcoding:%s', '# -*- coding: %s -*-\n']
+BREAKOUTS = ["'", "'+x+'", "' if 0 else '", "'.__class__.__name__+'", "'+variable.__self__.__class__.__name__+'", "')]):\n  pass\nimport os\n#", '"', "\n", "\\"]
+
+def shifted_spellings(text, codec):
+    """printable ASCII texts (no backslash) that a reader using `codec` (or any of the stateful 7-bit codecs) turns into `text`"""
+    import base64
+    out = []
+    # UTF-7 (RFC 2152): + base64(UTF-16BE) -
+    b = base64.b64encode(text.encode('utf-16-be')).decode('ascii').rstrip('=')
+    out += ['+' + b + '-', '+' + b, 'x+' + b + '-y']
+    for c in (codec, 'hz', 'iso2022_jp', 'iso2022_kr', 'utf_7', 'punycode', 'idna', 'quopri_codec', 'unicode_escape', 'raw_unicode_escape', 'rot_13', 'hex_codec', 'base64_codec', 'uu_codec'):
+        for enc in (lambda: text.encode(c), lambda: __import__('codecs').encode(text, c), lambda: __import__('codecs').encode(text.encode('utf8'), c)):
+            try:
+                e = enc()
+                if isinstance(e, bytes): e = e.decode('latin-1')
+            except Exception:
+                continue
+            if e and e != text:
+                out.append(e)
+    out += ['~{' + text + '~}', '\x1b$B' + text + '\x1b(B', '\x0e' + text + '\x0f', '=27', '&#39;', '%27', '\ufeff' + text, '\ufffe' + text]
+    return [o for o in out if '\\' not in o and '\x00' not in o]
+
+def coding_case(rng):
+    """a program of facts whose atoms spell encoding declarations (every way Python, Emacs, vim or XML write them, every codec name this
+    interpreter knows) and texts that a stateful / shifted codec reads as quotes and Python code"""
+    odd, plain = _codecs()
+    codec = rng.choice(rng.choice(odd) if rng.random() < 0.75 else rng.choice(plain))
+    codec_sp = rng.choice([codec, codec.replace('_', '-'), codec.upper(), codec.replace('_', '')])
+    decl = rng.choice(DECLARATIONS) % codec_sp
+    names = ['msg'] if rng.random() < 0.6 else ['msg', 'other', 'third']
+    clauses = []
+    n = rng.randrange(2, 6)
+    decl_at = rng.choice([0, 0, 0, 1, n - 1])
+    for i in range(n):
+        if i == decl_at:
+            a = decl
+        else:
+            sp = shifted_spellings(rng.choice(BREAKOUTS), codec)
+            a = rng.choice(sp) if sp and rng.random() < 0.8 else rng.choice(E.HOSTILE)
+            if rng.random() < 0.4:
+                a = a + rng.choice(CONTINUATIONS) + rng.choice(sp or [''])
+        q = E.quote_atom(a)
+        if q is None or any(0xD800 <= ord(ch) <= 0xDFFF for ch in a):
+            q, a = "'plain'", 'plain'
+        name = names[0] if i == 0 or len(names) == 1 else rng.choice(names)
+        shape = rng.choice(['%s(%s).', '%s(%s).', '%s(f(%s)).', '%s([%s]).', '%s(X) :- X = %s.'])
+        clauses.append((name, shape % (name, q), a if shape == '%s(%s).' else None))
+    if rng.random() < 0.3:
+        # the declaration as the name of a goal / a compound term of the first clause instead
+        clauses[0] = (names[0], "%s(X) :- %s(X), X = %s(1)." % (names[0], E.quote_atom(decl), E.quote_atom(decl)), None)
+    src = '\n'.join(c[1] for c in clauses) + '\n'
+    return {'kind': 'text', 'source': src, 'atoms': [], 'where': 'file', 'flags': 'all'}
+
 def gen(rng, tier):
     quick = tier == 'quick'
     cases = []
+    for _ in range(36 if quick else 300):
+        # one long atom (quick: up to ~4.3 kB, now and then 8.3 kB; thorough: up to 8.3 kB) and short ones in the other places
+        a = long_atom(rng, 4300 if quick and rng.random() < 0.9 else 8300)
+        pos = rng.choice(POSITIONS[:17])
+        k = pos.count('%s')
+        atoms = [rng.choice(E.HOSTILE[:40]) for _ in range(k)]
+        atoms[rng.randrange(k)] = a
+        qs = [E.quote_atom(x) for x in atoms]
+        if any(q is None for q in qs):
+            continue
+        cases.append({'kind': 'text', 'source': pos % tuple(qs), 'atoms': atoms, 'where': 'long'})
+    for _ in range(30 if quick else 500):
+        cases.append(coding_case(rng))
     def pick():
         if rng.random() < 0.25:
             # random text over a hostile alphabet
@@ -357,9 +522,113 @@ def impl(case):
         except Exception as e:
             probs.append('running %s/%d raised %s: %s' % (name, ar, type(e).__name__, str(e)[:60]))
     probs += _hostile_queries(yp, keys)
-    probs += _debug_output_problems(source, text, keys, atoms, nums)
+    p3, dtext = _debug_output_problems(source, text, keys, atoms, nums)
+    probs += p3
+    probs += _file_problems(case, source, text, dtext, keys)
     out['problems'] = probs[:12]
     return out
+
+def _answers(yp, keys):
+    """the first answers of every predicate of the program, as Python values"""
+    from yldprolog import engine
+    out = {}
+    for name, ar in keys:
+        vs = [yp.variable() for _ in range(ar)]
+        res = []
+        try:
+            q = yp.query(name, vs)
+            for _ in q:
+                try:
+                    res.append(repr([engine.to_python(v) for v in vs]))
+                except TypeError:
+                    res.append('TypeError')
+                if len(res) >= 4:
+                    break
+            if hasattr(q, 'close'):
+                q.close()
+        except RecursionError:
+            res.append('RecursionError')
+        except Exception as e:
+            res.append('raised %s' % type(e).__name__)
+        out['%s/%d' % (name, ar)] = res
+    return out
+
+FLAG_SETS = [[], ['--debug-generator'], ['--debug-parser'], ['--debug-filename'], ['--debug-generator', '--debug-filename'], ['--debug-parser', '--debug-generator'],
+             ['--debug-parser', '--debug-filename'], ['--debug-parser', '--debug-generator', '--debug-filename'], ['-d'], ['--debug']]
+
+def _file_problems(case, source, text, dtext, keys):
+    """The generated text written to a file and loaded with load_script_from_file - the plain output, the output with all debug
+    options, and (cases of the `file` family: every combination of the debug options; the others: one combination chosen by the
+    text) what the command line writes for the source file: loading must define the head keys and nothing else, every predicate must
+    answer exactly what it answers when the plain output is loaded from a string, nothing else may run (canary)."""
+    import hashlib, locale, shutil
+    from yldprolog import compiler, engine
+    from lib import coqrun
+    if any(0xD800 <= ord(ch) <= 0xDFFF for ch in source):
+        return []                     # no file form
+    utf8_locale = locale.getpreferredencoding(False).lower().replace('-', '').replace('_', '') == 'utf8'
+    want = {'%s_%d' % (k[0], k[1]) for k in keys}
+    ref = engine.YP()
+    ref.load_script_from_string(text)
+    ref_answers = _answers(ref, keys)
+    d = os.path.join(coqrun.VERIF, '.work', 'c12-%d' % os.getpid())
+    os.makedirs(d, exist_ok=True)
+    probs = []
+    def load_and_judge(path, what):
+        with open(path, 'rb') as f:
+            data = f.read()
+        if not utf8_locale and any(b >= 0x80 for b in data):
+            return                    # open(fn, 'r') decodes with the locale's encoding: only ASCII files are judged then
+        yp = engine.YP()
+        before = set(yp.eval_context)
+        try:
+            yp.load_script_from_file(path)
+        except Exception as e:
+            probs.append('%s: load_script_from_file raised %s although the same text loads from a string' % (what, type(e).__name__))
+            return
+        added = set(yp.eval_context) - before
+        if added != want:
+            probs.append('%s, loaded from the file: defines %r, the head keys are %r' % (what, sorted(added)[:5], sorted(want)[:5]))
+            return
+        if yp.eval_context.get('__builtins__') != {}:
+            probs.append('%s, loaded from the file: __builtins__ is not empty' % what)
+        a = _answers(yp, keys)
+        # a RecursionError of the host interpreter depends on the depth of the caller's stack: not compared
+        differ = [k for k in ref_answers if a.get(k) != ref_answers[k] and 'RecursionError' not in ref_answers[k] and 'RecursionError' not in (a.get(k) or [])]
+        if differ:
+            k = differ[0]
+            probs.append(('%s, loaded from the file: %s answers %r, loaded from a string %r' % (what, k, a.get(k), ref_answers[k]))[:600])
+        if os.environ.get(CANARY):
+            probs.append('%s, loaded from the file: the canary was set' % what)
+    try:
+        for what, t in (('the output', text), ('the output with all debug options', dtext)):
+            if t is None:
+                continue
+            path = os.path.join(d, 'out.py')
+            with open(path, 'w', encoding='utf8', newline='') as f:
+                f.write(t)
+            load_and_judge(path, what)
+        # the command line: yldpc <flags> -o out.py prog.pl
+        h = int(hashlib.sha256(source.encode('utf8')).hexdigest(), 16)
+        sets = FLAG_SETS if case.get('flags') == 'all' else [FLAG_SETS[h % len(FLAG_SETS)]]
+        src_path = os.path.join(d, 'prog.pl')
+        with open(src_path, 'wb') as f:
+            f.write(source.encode('utf8'))
+        for flags in sets:
+            outp = os.path.join(d, 'cli_out.py')
+            if os.path.exists(outp):
+                os.unlink(outp)
+            try:
+                compiler.main.main(args=flags + ['-o', outp, src_path], prog_name='yldpc', standalone_mode=False)
+            except RecursionError:
+                continue
+            except BaseException as e:
+                probs.append('yldpc %s raised %s on a source compile_prolog_from_string accepts' % (' '.join(flags), type(e).__name__))
+                continue
+            load_and_judge(outp, 'the file written by yldpc %s' % ' '.join(flags))
+    finally:
+        shutil.rmtree(d, ignore_errors=True)
+    return probs
 
 class DebugCtx(E.Ctx):
     debug_filename = True
@@ -374,7 +643,7 @@ def _debug_output_problems(source, text, keys, atoms, nums):
     if any(0xD800 <= ord(ch) <= 0xDFFF for ch in source):
         # a lone surrogate cannot be read from or written to a UTF-8 file; in code it is repr-escaped (checked above),
         # in a debug comment it would appear raw: such a debug text has no file form, nothing to check
-        return []
+        return [], None
     class Ctx2(DebugCtx):
         outf = io.StringIO()
     try:
@@ -382,14 +651,14 @@ def _debug_output_problems(source, text, keys, atoms, nums):
         code = compiler.compile_prolog_from_string(source, Ctx2)
         dtext = Ctx2.outf.getvalue() + code
     except RecursionError:
-        return []
+        return [], None
     except Exception as e:
-        return ['with debug options on the compiler raised %s although it accepts the source without them' % type(e).__name__]
+        return ['with debug options on the compiler raised %s although it accepts the source without them' % type(e).__name__], None
     probs = []
     try:
         m1 = pyast.dump(pyast.parse(text)); m2 = pyast.dump(pyast.parse(dtext))
     except Exception as e:
-        return ['with debug options on the output is not parsable Python: %s' % type(e).__name__]
+        return ['with debug options on the output is not parsable Python: %s' % type(e).__name__], dtext
     if m1 != m2:
         probs.append('with debug options on the output is a different Python module (something other than comments was added)')
     yp = engine.YP()
@@ -397,13 +666,13 @@ def _debug_output_problems(source, text, keys, atoms, nums):
     try:
         yp.load_script_from_string(dtext)
     except Exception as e:
-        return probs + ['loading the debug output raised %s' % type(e).__name__]
+        return probs + ['loading the debug output raised %s' % type(e).__name__], dtext
     want = {'%s_%d' % (k[0], k[1]) for k in keys}
     if not (set(yp.eval_context) - before) <= want:
         probs.append('loading the debug output added names %r that are not head keys' % sorted(set(yp.eval_context) - before - want)[:5])
     if os.environ.get(CANARY):
         probs.append('loading the debug output touched the canary')
-    return probs
+    return probs, dtext
 
 def compare(case, io, mo):
     return E.compare_verdicts(io['source'], io['verdict'], io.get('text'), mo)
